@@ -294,8 +294,16 @@ func Policy(t *rapid.T, arch string, o Opts) spec.Policy {
 					max := 12
 					if o.Profile == Long {
 						max = 80
+						if rapid.IntRange(0, 2).Draw(t, "veryLongList") == 0 {
+							// one list whose checks alone exceed 510 instructions: its jumps to "no match" need bridges that
+							// lead to bridges
+							nc = rapid.IntRange(130, 230).Draw(t, "condsVeryLong")
+							max = 0
+						}
 					}
-					nc = rapid.IntRange(6, max).Draw(t, "conds")
+					if max > 0 {
+						nc = rapid.IntRange(6, max).Draw(t, "conds")
+					}
 				}
 				ce := spec.CondEntry{Name: name}
 				if l > 0 && rapid.IntRange(0, 3).Draw(t, "nearDuplicate") == 0 {
